@@ -692,12 +692,12 @@ theorem label_colour_xml (c : Nat) : colEq (colXml c) c = true ∧ (c ≠ negZer
 
 /-- 76/255 (0x3FD3131313131313) and a `-0.0` alpha, keys in non-sorted order -/
 def exampleLabelR : LabelR :=
-  ⟨[1, 2], [[⟨5, 0, 4599094494223104787, 0, 4607182418800017408, negZeroBits⟩, ⟨-1, 3, 1, 2, 3, 4⟩], [⟨0, 1, 0, 0, 0, 0⟩]],
+  ⟨[1, 2], [[⟨5, 0, 4599040617120731923, 0, 4607182418800017408, negZeroBits⟩, ⟨-1, 3, 1, 2, 3, 4⟩], [⟨0, 1, 0, 0, 0, 0⟩]],
    [0, 7]⟩
 
 example : exampleLabelR.Valid := ⟨by decide, by decide, by decide⟩
 example : labelRXrt exampleLabelR = .ok ⟨[1, 2],
-    [[⟨5, 0, 4599094494223104787, 0, 4607182418800017408, 0⟩, ⟨-1, 3, 1, 2, 3, 4⟩], [⟨0, 1, 0, 0, 0, 0⟩]], [0, 7]⟩ := by
+    [[⟨5, 0, 4599040617120731923, 0, 4607182418800017408, 0⟩, ⟨-1, 3, 1, 2, 3, 4⟩], [⟨0, 1, 0, 0, 0, 0⟩]], [0, 7]⟩ := by
   decide
 /-- the uniqueness hypothesis is needed: a "table" with a repeated key is not a dict -/
 example : ltBuild [⟨1, 0, 0, 0, 0, 0⟩, ⟨1, 2, 0, 0, 0, 0⟩] = [⟨1, 2, 0, 0, 0, 0⟩] := by decide
